@@ -25,8 +25,7 @@ from datetime import datetime
 from typing import Dict, List, Optional, Set, Tuple
 
 from .catalogue import RefGraph, atoms, ref_recurrence
-from .monitors import _proxy_of_state
-from .profile import Monitor
+from .profile import Monitor, OpProfile, Profile
 from .world import World
 
 # --------------------------------------------------------------------------
@@ -186,6 +185,77 @@ def render_hours(sections) -> Dict[str, str]:
 
 
 # --------------------------------------------------------------------------
+# profiles whose monitors are listening *during* boot (the start-up spawning
+# out to the runahead limit happens before the first main-loop boundary)
+
+def _early_world(prof) -> World:
+    if prof._world is not None:
+        prof._world.dispose()
+    w = prof._world = World(prof.wid, prof.flow_text, prof.options,
+                            prof.spec.get('global_text', ''))
+    w.spec = prof.spec
+    for m in prof.monitors:
+        if getattr(m, 'early', False):
+            m.attach(w)
+    w.boot()
+    return w
+
+
+class EarlyProfile(Profile):
+    def make_world(self):
+        return _early_world(self)
+
+
+class EarlyOpProfile(OpProfile):
+    def make_world(self):
+        w = _early_world(self)
+        w.op_count = 0
+        w.op_log = []
+        w.n_stops = 0
+        return w
+
+
+def _proxy_of(w: World, state):
+    pool = getattr(w.schd, 'pool', None)
+    if pool is None:
+        return None
+    for bucket in pool.active_tasks.values():
+        for t in bucket.values():
+            if t.state is state:
+                return t
+    return None
+
+
+def _pool_tasks(w: World):
+    pool = getattr(w.schd, 'pool', None)
+    if pool is None:
+        return []
+    return [t for bucket in pool.active_tasks.values()
+            for t in bucket.values()]
+
+
+_CALLERS = {
+    '_force_trigger_tasks': 'trigger-command',
+    '_remove_matched_tasks': 'remove-command',
+    'reload_workflow': 'reload-command',
+    'load_from_point': 'start-up',
+    '_main_loop': 'main-loop',
+}
+
+
+def _where() -> str:
+    """Which part of the scheduler performed the release (observation of the
+    call stack at the moment of the offending release)."""
+    import sys
+    f = sys._getframe()
+    while f is not None:
+        tag = _CALLERS.get(f.f_code.co_name)
+        if tag is not None and 'cylc' in f.f_code.co_filename:
+            return tag
+        f = f.f_back
+    return 'elsewhere'
+
+
 def _targets(kwargs) -> List[Tuple[str, str]]:
     out = []
     for tid in kwargs.get('tasks', []) or []:
@@ -200,6 +270,7 @@ class RunaheadLimit(Monitor):
     all-success runs finish: shut down by themselves with every instance of
     the reference closure run."""
     name = 'runahead-limit'
+    early = True
 
     def __init__(self, judge_missing: bool = True):
         self.bad: List[dict] = []
@@ -210,6 +281,8 @@ class RunaheadLimit(Monitor):
 
     # ------------------------------------------------------------- set-up
     def attach(self, w: World) -> None:
+        if getattr(self, 'w', None) is w:
+            return                  # already listening since before boot
         super().attach(w)
         s = w.spec
         lo, hi = ref_bounds(s)
@@ -255,7 +328,7 @@ class RunaheadLimit(Monitor):
                 count('stop-point-commands')
 
     def _release(self, w: World, data: dict) -> None:
-        it = _proxy_of_state(w, data['state'])
+        it = _proxy_of(w, data['state'])
         if it is None:
             # not (yet) in the pool: a proxy being loaded on restart
             count('releases-outside-pool')
@@ -264,11 +337,13 @@ class RunaheadLimit(Monitor):
         name = it.tdef.name
         p = to_ref(s, it.point)
         count('releases')
+        if not getattr(w, 'iterations', 0):
+            count('releases-at-start-up')
         if (name, p) in self.manual:
             count('releases-manual-exempt')
             return
         pool = sorted(
-            (t.tdef.name, to_ref(s, t.point)) for t in w.schd.pool.get_tasks())
+            (t.tdef.name, to_ref(s, t.point)) for t in _pool_tasks(w))
         lim, why = ref_runahead(s, pool, self.stop)
         if why['future']:
             count('releases-with-future-offset')
@@ -280,16 +355,20 @@ class RunaheadLimit(Monitor):
             count('releases-with-others-held-back')
         if p > lim:
             ltxt = s.get('scheduling', {}).get('runahead limit', 'default')
+            spool = w.schd.pool
+            at_stop = (spool.runahead_limit_point is not None
+                       and spool.runahead_limit_point == spool.stop_point)
             self.bad.append(self.viol(
-                f'released-beyond-limit:{ltxt}'
-                f":{'future' if why['future'] else 'nofuture'}"
-                f":{'stopcap' if why['capped'] else 'nocap'}",
+                f'released-beyond-limit:{_where()}:{ltxt}:'
+                + ('sched-limit-at-stop-point' if at_stop
+                   else 'sched-limit-below-stop-point'),
                 f'{it.point}/{name} released from the runahead pool but the '
                 f'limit computed from the pool {pool} is {lim} (reference '
                 f'units; earliest pool point {why["base"]}, limit {ltxt} -> '
                 f'{why["raw"]}, future offset +{why["future"]}, stop point '
                 f'{why["stop"]}); scheduler limit = '
-                f'{w.schd.pool.runahead_limit_point}'))
+                f'{spool.runahead_limit_point}, scheduler stop point = '
+                f'{spool.stop_point}'))
 
     def after(self, w: World, ev: tuple) -> List[dict]:
         out, self.bad = self.bad, []
@@ -318,7 +397,7 @@ class RunaheadLimit(Monitor):
         starved = []
         pool = getattr(w.schd, 'pool', None)
         if pool is not None:
-            for it in pool.get_tasks():
+            for it in _pool_tasks(w):
                 p = to_ref(s, it.point)
                 if (it.state.is_runahead and it.state.status == 'waiting'
                         and p <= self.stop and (it.tdef.name, p) not in ran):
